@@ -15,11 +15,14 @@ CONSTANTS Size,      \* buffer size
                           \* empty buffer no longer grants its full size)
 
 VARIABLES head, tail, wh, wt, ch, ct,        \* head, tail, wrappedHead, wrappedTail, claimHead, claimTail
+          cwhere,                            \* ghost: where the outstanding claim was placed when it was made
+                                             \* ("none" | "tail" | "wrap" | "front"); no effect on behaviour, part of
+                                             \* the VIEW so that the cover continues behind every placement
           msize, live, mclaim, bad,  \* monitor
           hist,                              \* generated history (not part of the VIEW)
           done                               \* generation only: history complete
 
-implvars == <<head, tail, wh, wt, ch, ct>>
+implvars == <<head, tail, wh, wt, ch, ct, cwhere>>
 monvars  == <<msize, live, mclaim, bad>>
 vars     == <<implvars, monvars, hist, done>>
 
@@ -37,14 +40,14 @@ Ev(name, n, off, len, committed, claimed) ==
 Emit(e) == Mon!Obs(e) /\ hist' = Append(hist, e)
 
 Init ==
-  /\ head = 0 /\ tail = 0 /\ wh = 0 /\ wt = 0 /\ ch = 0 /\ ct = 0
+  /\ head = 0 /\ tail = 0 /\ wh = 0 /\ wt = 0 /\ ch = 0 /\ ct = 0 /\ cwhere = "none"
   /\ msize = Size /\ live = <<>> /\ mclaim = Mon!NoClaim /\ bad = ""
   /\ hist = << [ev |-> "New", n |-> Size, off |-> -1, len |-> 0, toks |-> <<>>,
                 committed |-> 0, claimed |-> 0, empty |-> 1] >>
   /\ done = FALSE
 
 Reset ==
-  /\ head' = 0 /\ tail' = 0 /\ wh' = 0 /\ wt' = 0 /\ ch' = 0 /\ ct' = 0
+  /\ head' = 0 /\ tail' = 0 /\ wh' = 0 /\ wt' = 0 /\ ch' = 0 /\ ct' = 0 /\ cwhere' = "none"
   /\ Emit(Ev("Reset", 0, 0, 0, 0, 0))
 
 Claim(n) ==
@@ -57,18 +60,19 @@ Claim(n) ==
   IN
   /\ UNCHANGED <<head, tail, wh, wt>>
   /\ IF free = 0
-       THEN /\ UNCHANGED <<ch, ct>>
+       THEN /\ UNCHANGED <<ch, ct, cwhere>>
             /\ Emit(Ev("Claim", n, -1, 0, Committed(head, tail, wh, wt), ct - ch))
        ELSE /\ ch' = nch /\ ct' = nch + cs
+            /\ cwhere' = IF wrapped THEN "wrap" ELSE IF before <= after THEN "tail" ELSE "front"
             /\ Emit(Ev("Claim", n, nch, cs, Committed(head, tail, wh, wt), cs))
 
 Commit(n) ==
   IF n = 0 \/ (~BUG_EmptyGrant /\ ct - ch = 0) THEN
-    /\ ch' = 0 /\ ct' = 0 /\ UNCHANGED <<head, tail, wh, wt>>
+    /\ ch' = 0 /\ ct' = 0 /\ cwhere' = "none" /\ UNCHANGED <<head, tail, wh, wt>>
     /\ Emit(Ev("Commit", n, 0, 0, Committed(head, tail, wh, wt), 0))
   ELSE
     LET tc == IF ct - ch > n THEN n ELSE ct - ch IN
-    /\ ch' = 0 /\ ct' = 0
+    /\ ch' = 0 /\ ct' = 0 /\ cwhere' = "none"
     /\ IF Committed(head, tail, wh, wt) = 0 THEN
           /\ head' = ch /\ tail' = ch + tc /\ UNCHANGED <<wh, wt>>
           /\ Emit(Ev("Commit", n, ch, tc, Committed(head', tail', wh, wt), 0))
@@ -86,7 +90,7 @@ DoHead ==
              Committed(head, tail, wh, wt), ct - ch))
 
 Consume(n) ==
-  /\ UNCHANGED <<ch, ct>>
+  /\ UNCHANGED <<ch, ct, cwhere>>
   /\ IF n >= tail - head
        THEN /\ head' = wh /\ tail' = wt /\ wh' = 0 /\ wt' = 0
        ELSE /\ head' = head + n /\ UNCHANGED <<tail, wh, wt>>
